@@ -39,6 +39,7 @@ enum {
     C19_SETDATA, C19_GETDATA,
     C19_DISABLE, C19_ENABLE, C19_IOC, C19_CHECK, C19_LEFT, C19_CLEAR, C19_CRASHONFAIL,
     C19_INSTALL_CMP, C19_INSTALL_CPY, C19_REMOVE_ALL,
+    C19_SELECT,              /* obtain a support handle once: H = mock_c() / mock_scope_c(scope); ops with scope == C19_KEPT use H */
     /* operations on the handle returned by the last expectOneCall / expectNCalls */
     C19_E_PARAM, C19_E_OUT, C19_E_OUT_TYPED, C19_E_UNMOD, C19_E_IGNORE, C19_E_RET,
     /* operations on the handle returned by the last actualCall */
@@ -56,6 +57,10 @@ typedef struct c19_op {
     int slot;                /* A_OUT*: destination slot */
     c19_val v;               /* parameter / return value / default / data; E_OUT: p = source bytes, size */
 } c19_op;
+
+/* scope value of a support-level operation that goes through the handle obtained by the last C19_SELECT, without
+ * selecting a scope again (C: the kept MockSupport_c*, C++: the kept MockSupport&) */
+#define C19_KEPT ((const char*)1)
 
 #define C19_TAG_NONE (-1)
 typedef struct c19_obs {
